@@ -72,11 +72,15 @@ impl C04 {
         // (f;g)† ≅ g†;f†
         let lhs = lib(ctx, "compose;dagger", "any", &input, || lf.compose(&lg).map(|x| x.dagger())).flatten();
         let rhs = lib(ctx, "dagger;compose", "any", &input, || lg.dagger().compose(&lf.dagger())).flatten();
-        law(ctx, "dagger-reverses-composition", "composable_pair", lhs, rhs, &input);
+        if let (Some(pl), Some(m)) = (law(ctx, "dagger-reverses-composition", "composable_pair", lhs, rhs, &input), f.compose(&g)) {
+            expect_iso(ctx, "dagger", "reverses-composition-model", "composable_pair", &pl, &m.dagger(), &input);
+        }
         // (f|g)† ≅ f†|g†
         let lhs = lib(ctx, "tensor;dagger", "any", &input, || lf.tensor(&lg).dagger());
         let rhs = lib(ctx, "dagger;tensor", "any", &input, || lf.dagger().tensor(&lg.dagger()));
-        law(ctx, "dagger-distributes-over-tensor", "pair", lhs, rhs, &input);
+        if let Some(pl) = law(ctx, "dagger-distributes-over-tensor", "pair", lhs, rhs, &input) {
+            expect_iso(ctx, "dagger", "distributes-over-tensor-model", "pair", &pl, &f.tensor(&g).dagger(), &input);
+        }
         // lax dagger, on an operand that still carries pending unifications
         let mut pl = f.to_lax();
         {
@@ -97,7 +101,7 @@ impl C04 {
             let mut want = pl.clone();
             std::mem::swap(&mut want.s, &mut want.t);
             let got = from_lax_raw(&d);
-            ctx.check(got == want, "lax::dagger/swaps-interfaces-only/value/pending", || json!({"input": show_lax(&pl), "observed": show_lax(&got), "expected_exactly": show_lax(&want)}));
+            ctx.check(got == want && wf_lax(&d).is_empty(), "lax::dagger/swaps-interfaces-only/value/pending", || json!({"input": show_lax(&pl), "observed": show_lax(&got), "expected_exactly": show_lax(&want)}));
             if let Some(dd) = lib(ctx, "lax::dagger", "any", &input, || Spider::dagger(&d)) {
                 ctx.check(dd == lxp, "lax::dagger/involution/value/pending", || json!({"input": show_lax(&pl)}));
             }
@@ -153,7 +157,7 @@ impl C04 {
         if let Some(d) = lib(ctx, "lax::dagger", "any", &input, || Spider::dagger(&lxf)) {
             ctx.count("wf:walked");
             let got = from_lax_raw(&d);
-            ctx.check(got == f.dagger().to_lax(), "lax::dagger/swaps-interfaces-only/value/any", || json!({"input": input(), "observed": show_lax(&got)}));
+            ctx.check(got == f.dagger().to_lax() && wf_lax(&d).is_empty(), "lax::dagger/swaps-interfaces-only/value/any", || json!({"input": input(), "observed": show_lax(&got)}));
             if let Some(dd) = lib(ctx, "lax::dagger", "any", &input, || Spider::dagger(&d)) {
                 ctx.check(dd == lxf, "lax::dagger/involution/value/any", || json!({"input": input()}));
             }
@@ -169,14 +173,26 @@ impl C04 {
             let d = |r: &mut Rng| -> usize { match r.below(6) { 0 => n + 1, 1 => n.saturating_sub(1), _ => n } };
             let (sc, tc) = (d(r), d(r));
             // keep each leg a valid finite function of its own codomain
-            let s: Vec<usize> = if sc == 0 { vec![] } else { s.into_iter().map(|v| v.min(sc - 1)).collect() };
-            let t: Vec<usize> = if tc == 0 { vec![] } else { t.into_iter().map(|v| v.min(tc - 1)).collect() };
+            let mut s: Vec<usize> = if sc == 0 { vec![] } else { s.into_iter().map(|v| v.min(sc - 1)).collect() };
+            let mut t: Vec<usize> = if tc == 0 { vec![] } else { t.into_iter().map(|v| v.min(tc - 1)).collect() };
+            // a leg that really points past the node list (entry = |w|), also over an empty node list
+            if sc == n + 1 && r.chance(1, 2) {
+                let k = r.below(s.len() + 1);
+                s.insert(k, n);
+            }
+            if tc == n + 1 && r.chance(1, 2) {
+                let k = r.below(t.len() + 1);
+                t.insert(k, n);
+            }
             (s, sc, t, tc, w)
         });
         let n = w.len();
         let input = || json!({"s": s, "s_codomain": sc, "t": t, "t_codomain": tc, "w": w});
         let accept = sc == n && tc == n;
         ctx.class(if accept { "spider_accept" } else { "spider_reject" });
+        if s.iter().any(|&v| v >= n) || t.iter().any(|&v| v >= n) {
+            ctx.class("spider_leg_entry_past_the_node_list");
+        }
         if !accept {
             ctx.nontrivial(&("spider-reject", &s, sc, &t, tc, &w));
         }
@@ -197,19 +213,47 @@ impl C04 {
             }
         }
         // lax spider: same rejection condition
-        let res = lib(ctx, "lax::spider", "any", &input, || L::spider(ff(s.clone(), sc), ff(t.clone(), tc), w.clone()));
-        if let Some(o) = res {
-            ctx.check(o.is_some() == accept, "lax::spider/fails-iff-leg-misses-node-list/value/any", || json!({"input": input(), "observed_some": o.is_some(), "expected_some": accept}));
-            if let (Some(sp), true) = (o, accept) {
-                ctx.count("wf:walked");
-                ctx.check(from_lax_raw(&sp) == want.to_lax(), "lax::spider/discrete-with-given-legs/value/any", || json!({"input": input(), "observed": show_lax(&from_lax_raw(&sp))}));
+        for api in ["lax::spider", "lax::Spider::spider"] {
+            let res = if api == "lax::spider" {
+                lib(ctx, api, "any", &input, || L::spider(ff(s.clone(), sc), ff(t.clone(), tc), w.clone()))
+            } else {
+                lib(ctx, api, "any", &input, || <L as Spider<_>>::spider(ff(s.clone(), sc), ff(t.clone(), tc), w.clone()))
+            };
+            if let Some(o) = res {
+                ctx.check(o.is_some() == accept, &format!("{}/fails-iff-leg-misses-node-list/value/any", api), || json!({"input": input(), "observed_some": o.is_some(), "expected_some": accept}));
+                if let (Some(sp), true) = (o, accept) {
+                    ctx.count("wf:walked");
+                    ctx.check(from_lax_raw(&sp) == want.to_lax() && wf_lax(&sp).is_empty(), &format!("{}/discrete-with-given-legs/value/any", api), || json!({"input": input(), "observed": show_lax(&from_lax_raw(&sp))}));
+                }
             }
         }
-        // half spider = spider with identity target leg
-        if sc == n {
-            let hs = lib(ctx, "half_spider", "any", &input, || <S as Spider<_>>::half_spider(ff(s.clone(), sc), sf(w.clone()))).flatten();
-            let full = lib(ctx, "Spider::spider", "any", &input, || <S as Spider<_>>::spider(ff(s.clone(), sc), ff((0..n).collect(), n), sf(w.clone()))).flatten();
-            law(ctx, "half-spider-is-spider-with-identity-leg", "any", hs, full, &input);
+        // half spider = spider with identity target leg; fails exactly when the leg misses the node list
+        {
+            let hwant = POh::<u32, u64>::spider(s.clone(), (0..n).collect(), w.clone());
+            let hs = lib(ctx, "half_spider", "any", &input, || <S as Spider<_>>::half_spider(ff(s.clone(), sc), sf(w.clone())));
+            if let Some(hs) = hs {
+                ctx.check(hs.is_some() == (sc == n), "half_spider/fails-iff-leg-misses-node-list/value/any", || json!({"input": input(), "observed_some": hs.is_some()}));
+                if sc == n {
+                    if let Some(h) = &hs {
+                        if let Some(p) = walk(ctx, "half_spider", "any", h, &input) {
+                            // discrete, legs (s, a bijection): compared up to isomorphism with the model
+                            expect_iso(ctx, "half_spider", "is-spider-with-identity-leg-model", "any", &p, &hwant, &input);
+                        }
+                    }
+                    let full = lib(ctx, "Spider::spider", "any", &input, || <S as Spider<_>>::spider(ff(s.clone(), sc), ff((0..n).collect(), n), sf(w.clone()))).flatten();
+                    law(ctx, "half-spider-is-spider-with-identity-leg", "any", hs, full, &input);
+                }
+            }
+            let lhs = lib(ctx, "lax::half_spider", "any", &input, || <L as Spider<_>>::half_spider(ff(s.clone(), sc), w.clone()));
+            if let Some(lhs) = lhs {
+                ctx.check(lhs.is_some() == (sc == n), "lax::half_spider/fails-iff-leg-misses-node-list/value/any", || json!({"input": input(), "observed_some": lhs.is_some()}));
+                if let (Some(h), true) = (lhs, sc == n) {
+                    if let Some(pl) = walk_lax(ctx, "lax::half_spider", "any", &h, &input) {
+                        ctx.check(pl.q.is_empty() && pl.e.is_empty(), "lax::half_spider/discrete/value/any", || json!({"input": input(), "observed": show_lax(&pl)}));
+                        expect_iso(ctx, "lax::half_spider", "is-spider-with-identity-leg-model", "any", &pl.forget_q(), &hwant, &input);
+                    }
+                }
+            }
         }
         ctx.sample(if accept { "spider_accept" } else { "spider_reject" }, || input());
     }
@@ -305,7 +349,7 @@ impl C04 {
         let lx = lib(ctx, "lax::identity", "objects", &input, || L::identity(a.clone()));
         if let Some(lx) = lx {
             ctx.count("wf:walked");
-            ctx.check(from_lax_raw(&lx) == POh::<u32, u64>::identity(a.clone()).to_lax(), "lax::identity/is-identity-cospan/value/objects", || json!({"input": input()}));
+            ctx.check(from_lax_raw(&lx) == POh::<u32, u64>::identity(a.clone()).to_lax() && wf_lax(&lx).is_empty(), "lax::identity/is-identity-cospan/value/objects", || json!({"input": input()}));
         }
         let lt = lib(ctx, "lax::twist", "objects", &input, || <L as SymmetricMonoidal>::twist(a.clone(), b.clone()));
         if let Some(lt) = lt {
@@ -338,6 +382,9 @@ impl Monitor for C04 {
         vec![
             ("class:spider_accept", 100),
             ("class:spider_reject", 100),
+            ("class:spider_leg_entry_past_the_node_list", 30),
+            ("api:lax::half_spider", 100),
+            ("api:lax::Spider::spider", 100),
             ("class:fusion_non_injective_leg", 100),
             ("class:fusion_empty_node_set", 5),
             ("class:contravariance_with_edges", 100),
